@@ -9,7 +9,7 @@ import (
 
 // BigIntTrusted documents the trusted model of math/big.Int for the evidence file.
 const BigIntTrusted = "math/big.Int is modelled as a mathematical integer: NewInt/SetInt64/SetUint64/Set/Neg/Abs/Add/Sub/Mul/Sign/Cmp/IsInt64/Int64/IsUint64/Uint64 " +
-	"are exact integer operations, String is an uninterpreted function of the value that is non-empty and starts with '-' exactly for negative values, every other method is an uninterpreted function " +
+	"are exact integer operations, BitLen is zero exactly for zero, SetBytes is non-negative and zero exactly when every byte is zero, String is an uninterpreted function of the value that is non-empty and starts with '-' exactly for negative values, every other method is an uninterpreted function " +
 	"of the operands' values (same inputs, same result; the receiver of z.Op(x, y) is only the destination), results alias the receiver as in the library"
 
 const bigIntKey = "big.Int.val"
@@ -113,6 +113,51 @@ func (f *frame) bigIntModel(n *node, callee *ssa.Function, full string, args []V
 		v := load(recv)
 		_, _, to := x.bigBridges()
 		return Val{T: rt, C: []string{g.Fresh(SortBV64, "("+to+" "+v+")")}}, true
+	case "BitLen":
+		// the bit length is zero exactly for zero
+		v := load(recv)
+		fn := g.Fun("big:BitLen", []string{SortInt}, SortBV64)
+		r := g.Fresh(SortBV64, "("+fn+" "+v+")")
+		g.Assume(and(eq(eq(r, bvLit(0, 64)), "(= "+v+" 0)"), "(bvult "+r+" "+bvLit(1<<40, 64)+")"))
+		return Val{T: rt, C: []string{r}}, true
+	case "Bytes":
+		// the big-endian magnitude in a fresh slice: ceil(BitLen/8) bytes, no leading zero,
+		// and the top bit of the first byte is set exactly when BitLen is a multiple of 8
+		if !g.InQuant() {
+			v := load(recv)
+			bl := g.Fun("big:BitLen", []string{SortInt}, SortBV64)
+			r := g.Fresh(SortBV64, "("+bl+" "+v+")")
+			g.Assume(and(eq(eq(r, bvLit(0, 64)), "(= "+v+" 0)"), "(bvult "+r+" "+bvLit(1<<40, 64)+")"))
+			ln := g.Fresh(SortBV64, "(bvudiv (bvadd "+r+" "+bvLit(7, 64)+") "+bvLit(8, 64)+")")
+			ref := x.newRef()
+			res := Val{T: rt, C: []string{ref, bvLit(0, 64), ln, ln}}
+			bt := types.Typ[types.Uint8]
+			f.initElems(n, ref, x.sliceKey(res), bt)
+			fa := g.Fun("big:Bytes", []string{SortInt}, arrSort(SortBV64, SortBV8))
+			contents := g.Fresh(arrSort(SortBV64, SortBV8), "("+fa+" "+v+")")
+			k := x.sliceKey(res) + "[]"
+			arr := x.hget(n.heap, k, SortBV8, SortBV64)
+			x.hset(n.heap, k, SortBV8, SortBV64, g.Fresh(heapArraySort(SortBV8, SortBV64), "(store "+arr+" "+ref+" "+contents+")"), ref)
+			first := "(select " + contents + " " + bvLit(0, 64) + ")"
+			g.Assume(implies("(not (= "+v+" 0))", and(not(eq(first, "#x00")),
+				eq(not(eq("(bvand "+first+" #x80)", "#x00")), eq("(bvurem "+r+" "+bvLit(8, 64)+")", bvLit(0, 64))))))
+			return Val{T: rt, C: []string{ref, bvLit(0, 64), ln, ln}}, true
+		}
+	case "SetBytes":
+		// the big-endian value of the bytes: non-negative, and zero exactly when every byte is
+		if len(args) == 2 && isByteSlice(args[1].T) && !g.InQuant() {
+			a := args[1]
+			arr := x.hget(f.heapFor(n, a), x.sliceKey(a)+"[]", SortBV8, SortBV64)
+			contents := g.Fresh(arrSort(SortBV64, SortBV8), "(select "+arr+" "+a.C[0]+")")
+			fn := g.Fun("big:SetBytes", []string{arrSort(SortBV64, SortBV8), SortBV64, SortBV64}, SortInt)
+			v := g.Fresh(SortInt, "("+fn+" "+contents+" "+a.C[1]+" "+a.C[2]+")")
+			sk := g.Const("setbytes.k", SortBV64)
+			allZero := "(forall ((i! (_ BitVec 64))) (=> (bvult i! " + a.C[2] + ") (= (select " + contents + " (bvadd " + a.C[1] + " i!)) #x00)))"
+			g.Assume(and("(>= "+v+" 0)", implies("(= "+v+" 0)", allZero),
+				implies("(not (= "+v+" 0))", and("(bvult "+sk+" "+a.C[2]+")", not(eq("(select "+contents+" (bvadd "+a.C[1]+" "+sk+"))", "#x00"))))))
+			store(recv, v)
+			return Val{T: rt, C: recv.C}, true
+		}
 	case "String":
 		return x.bigString(load(recv)), true
 	case "Sign":
